@@ -31,7 +31,8 @@ DevNames == {"iwb_returns_input", "iwb_counts_escaped", "escaper_drops_apos",
              "callee_inherits", "truncate_cancels", "escapehtml_keeps_autoescape",
              "nonstring_raw", "truncate_off_by_one", "uri_space_raw", "js_quote_raw",
              "nl2br_unescaped", "ns_attr_ignored", "deprecated_contextual_unspecified",
-             "nonstring_input_raw", "placeholder_name_ignores_directives"}
+             "nonstring_input_raw", "placeholder_name_ignores_directives",
+             "log_leaves_escaping_off"}
 
 (***************************************************************************)
 (* Directives: [name, args] with args a sequence of values.                *)
